@@ -773,10 +773,6 @@ theorem variant_values_roundtrip : ∀ (names : List String) (lv cv : List Val),
           intro m hm
           exact lookup_skip n m (a, b) _ (by intro hh; subst hh; exact hn hm)
 
-/-- flags are three booleans carried verbatim: nothing to prove beyond `rfl`; the theorem records that the round trip is
-the identity on them (the code as found dropped them: finding `portable-flags`) -/
-theorem flags_roundtrip (f : Flags) : (⟨f.linear, f.flat, f.deterministic⟩ : Flags) = f := rfl
-
 /-- the context keeps its keys except `__builtins__` (values are not exported, by design) -/
 theorem context_roundtrip (keys : List String) (h : "__builtins__" ∉ keys) : encodeContext keys = keys := by
   unfold encodeContext
@@ -1266,9 +1262,11 @@ theorem getValue_spellings_agree (h : Heap) (m : Ref) (name : String) (vals : Li
             simp only [levelsOf] at hr
             split at hr
             · rename_i o rest _ hrest
-              simp only [Option.some.injEq] at hr
-              subst hr
-              simp [ih rest hrest]
+              split at hr
+              · simp only [Option.some.injEq] at hr
+                subst hr
+                simp [ih rest hrest]
+              · cases hr
             · cases hr
         have hll := hlen vs l hv
         simp only [hv, Except.ok.injEq] at hl ⊢
@@ -1312,5 +1310,163 @@ theorem quantity_kinds_exported (k : QKind) : k ∈ exportOrder ∨ k.isStd = tr
 
 example : (encodeEs [{ kind := .autovalue, dynamic := "sx=2*x1+1", steady := "sx=2*x1+1" },
     { kind := .transition, dynamic := "x1=r1*x1[-1]", steady := "x1=r1*x1[-1]" }]).map (·.code) = ["#T", "#A"] := by decide
+
+
+/-! ## round 5: statement audit -- input-level end-to-end theorems, rejection branches, invariant mutators -/
+
+/-- everything allocated -/
+def Alloc (h : Heap) : Ref → Prop := fun x => x < h.next
+
+/-- a heap without dangling pointers: well-formed and every stored pointer is allocated -/
+structure Good (h : Heap) : Prop where
+  wf : h.WF
+  closed : Closed (Alloc h) h
+
+theorem Good.empty : Good Heap.empty :=
+  ⟨fun _ _ => rfl, fun x o _ hg => by simp [Heap.empty] at hg⟩
+
+/-- an operation that succeeds was aimed at an allocated object (`getModel` fails on anything else) -/
+theorem step_ok_target_allocated (fs : Funs) {h h' : Heap} (hw : h.WF) (op : Op) {r : Option Ref}
+    (hr : step fs h op = .ok (r, h')) : op.target < h.next := by
+  apply Nat.lt_of_not_le
+  intro hle
+  have hg : h.get op.target = none := hw _ hle
+  cases op <;>
+    simp [step, Op.target, assign, solve, steady, alter, setDesc, setTol, copy, pickle, view, mutInv, getModel, Except.map] at hr hg <;>
+    simp [hg] at hr
+
+theorem side_alloc {h0 h : Heap} (hle : h0.next ≤ h.next) (x : Ref) :
+    Side (Alloc h0) h0.next h.next x ↔ Alloc h x := by
+  unfold Side Alloc
+  constructor
+  · rintro (hx | ⟨_, hx⟩)
+    · exact Nat.lt_of_lt_of_le hx hle
+    · exact hx
+  · intro hx
+    by_cases h1 : x < h0.next
+    · exact Or.inl h1
+    · exact Or.inr ⟨Nat.le_of_not_lt h1, hx⟩
+
+/-- every operation keeps the heap free of dangling pointers -/
+theorem step_good (fs : Funs) {h h' : Heap} (g : Good h) (op : Op) {r : Option Ref}
+    (hr : step fs h op = .ok (r, h')) : Good h' := by
+  have ht := step_ok_target_allocated fs g.wf op hr
+  obtain ⟨e, le, _⟩ := step_ext fs (Ext.refl g.wf g.closed) op (Or.inl ht) hr
+  refine ⟨e.wf, ?_⟩
+  intro x o hx hg y hy
+  exact (side_alloc le y).mp (e.closed x o ((side_alloc le x).mpr hx) hg y hy)
+
+theorem newModel_good {h : Heap} (g : Good h) (d : InvData) : Good (newModel h d).2 := by
+  unfold newModel
+  have e0 := Ext.refl g.wf g.closed
+  obtain ⟨e1, _⟩ := e0.alloc (.inv d) (by simp [Obj.refs])
+  obtain ⟨e2, s2⟩ := e1.alloc (.dict (enforceLevels d.quantities (initLevels d))) (by simp [Obj.refs])
+  obtain ⟨e3, s3⟩ := e2.alloc (.dict (enforceChanges d.quantities (initChanges d))) (by simp [Obj.refs])
+  obtain ⟨e4, s4⟩ := e3.alloc (.var (h.next + 1) (h.next + 1 + 1) none) (by
+    intro y hy
+    simp only [Obj.refs, Option.toList, List.mem_cons, List.not_mem_nil, or_false] at hy
+    rcases hy with rfl | rfl
+    · exact Side.mono (by simp) s2
+    · exact s3)
+  obtain ⟨e5, _⟩ := e4.alloc (.model h.next [h.next + 1 + 1 + 1]) (by
+    intro y hy
+    simp only [Obj.refs, List.mem_cons, List.not_mem_nil, or_false] at hy
+    rcases hy with rfl | rfl
+    · exact Or.inr ⟨Nat.le_refl _, by
+        show (h.next : Nat) < _
+        simp only [Heap.next_alloc]
+        omega⟩
+    · exact s4)
+  refine ⟨e5.wf, ?_⟩
+  intro x o hx hg y hy
+  have le : h.next ≤ (newModel h d).2.next := by simp [newModel]; omega
+  exact (side_alloc le y).mp (e5.closed x o ((side_alloc le x).mpr hx) hg y hy)
+
+/-- after ANY history from a freshly built model the heap has no dangling pointers -/
+theorem good_after_history (fs : Funs) (d : InvData) : ∀ (ops : List Op), Good (runOps fs (newModel Heap.empty d).2 ops) := by
+  have gen : ∀ (ops : List Op) (h : Heap), Good h → Good (runOps fs h ops) := by
+    intro ops
+    induction ops with
+    | nil => intro h g; exact g
+    | cons op rest ih =>
+      intro h g
+      simp only [runOps]
+      cases hst : step fs h op with
+      | error e => exact ih h g
+      | ok p =>
+        obtain ⟨r, h'⟩ := p
+        exact ih h' (step_good fs g op hst)
+  intro ops
+  exact gen ops _ (newModel_good Good.empty d)
+
+/-- END-TO-END, input-level hypotheses only: build a model from ANY invariant data, run ANY history on it and on whatever
+it creates, take a copy (or a pickle round trip) of ANY model object; then for EVERY interleaving of operations tagged
+"everything that existed before the copy" / "the copy and everything made from it", every step leaves the objects and the
+observable state of the other side unchanged.  No separation hypothesis: `Sep` is established by `good_after_history` and
+`copy_disjoint`.  The operations include every mutator of the invariant (`Op.mutInv f` for any `f`: `change_logly`,
+`reset_tolerance`, `set_description`, `override_tolerance`). -/
+theorem copy_isolated_end_to_end (fs : Funs) (d : InvData) (history : List Op) (m m' : Ref) (h' : Heap)
+    (hc : copy (runOps fs (newModel Heap.empty d).2 history) m = .ok (m', h')) (ops : List (Tag × Op)) :
+    IsolatedRun fs h' (Alloc (runOps fs (newModel Heap.empty d).2 history))
+      (Fresh (runOps fs (newModel Heap.empty d).2 history) h') ops := by
+  have g := good_after_history fs d history
+  exact interleaving_isolated fs ops h' _ _ (copy_disjoint g.wf g.closed (fun _ hx => hx) hc).2.2
+
+theorem pickle_isolated_end_to_end (fs : Funs) (d : InvData) (history : List Op) (m m' : Ref) (h' : Heap)
+    (hc : pickle (runOps fs (newModel Heap.empty d).2 history) m = .ok (m', h')) (ops : List (Tag × Op)) :
+    IsolatedRun fs h' (Alloc (runOps fs (newModel Heap.empty d).2 history))
+      (Fresh (runOps fs (newModel Heap.empty d).2 history) h') ops := by
+  have g := good_after_history fs d history
+  exact interleaving_isolated fs ops h' _ _ (pickle_disjoint g.wf g.closed (fun _ hx => hx) hc).2.2
+
+/-- non-vacuity: the copy of the concrete model exists, the copy is on the fresh side, the original on the old side, and a
+`change_logly` on the copy followed by a `set_description` on the original is a history both of whose steps are covered -/
+private def fs0 : Funs := ⟨fun _ _ _ => "s", fun _ l c => (l, c), fun _ l c => (l, c)⟩
+
+example : (copy (runOps fs0 (newModel Heap.empty d0).2 [.alter 4 3, .solve 4]) 4).toOption.map (·.1) = some 27 := rfl
+
+example : (step ⟨fun _ _ _ => "s", fun _ l c => (l, c), fun _ l c => (l, c)⟩ h0 (.mutInv 4 (changeLogly true []))).toOption.bind
+    (fun p => (observe p.2 4).map (fun o => o.inv.quantities.map (·.logly))) = some [some true, none, none] := rfl
+
+/-- `solve` at model level (the loop of `solve_each_variant` is what `m.solve()` runs) -/
+theorem solve_model_each_variant (F : InvData → List Val → List Val → Sol) {h h' : Heap} {m i : Nat} {vs : List Nat}
+    {d : InvData} (hw : h.WF) (hm : getModel h m = .ok (i, vs, d)) (hnd : vs.Nodup) (hr : solve F h m = .ok h') :
+    ∀ v o, v ∈ vs → observeVar h v = some o →
+      observeVar h' v = some ⟨o.levels, o.changes, some (F d o.levels o.changes)⟩ := by
+  unfold solve at hr
+  simp only [hm] at hr
+  exact (solve_each_variant F d vs h h' hw hnd hr).1
+
+/-! ### rejection branches: the model rejects what the code rejects -/
+
+/-- `alter_num_variants(0)` on any model with at least one variant raises, and nothing changes (an `Except.error` carries no heap) -/
+theorem alter_zero_rejected {h : Heap} {m i : Nat} {vs : List Nat} {d : InvData}
+    (hm : getModel h m = .ok (i, vs, d)) (hne : vs ≠ []) : alter h m 0 = .error .bad := by
+  unfold alter
+  have : 0 < vs.length := List.length_pos_iff.mpr hne
+  simp [hm, this]
+
+/-- reading an unknown name raises (`IrisPieCritical: Invalid model name`) -/
+theorem getValue_unknown_name_rejected {h : Heap} {m i : Nat} {vs : List Nat} {d : InvData} (name : String) (u : Bool)
+    (hm : getModel h m = .ok (i, vs, d)) (hq : qidOf d name = none) : getValue h m name u = .error .bad := by
+  unfold getValue
+  simp [hm, hq]
+
+/-- a portable of another format version is rejected before anything is decoded -/
+theorem fromPortable_rejects_other_format (subst : List Quantity → Equation → Equation) (tol : Rat) (p : PModel)
+    (h : p.format ≠ "0.3.0") : fromPortable subst tol p = .error .format := by
+  unfold fromPortable fromPortableG
+  simp [h]
+
+/-- a portable with an unknown quantity or equation kind code is rejected -/
+theorem fromPortable_rejects_unknown_code (subst : List Quantity → Equation → Equation) (tol : Rat) (p : PModel)
+    (hf : p.format = "0.3.0") (h : decodeQs p.quantities = none) : fromPortable subst tol p = .error .badCode := by
+  unfold fromPortable fromPortableG
+  simp [hf, h]
+
+/-- a portable without variants is rejected (`alter_num_variants(0)`) -- when everything before it passes -/
+example : fromPortable (fun _ e => e) 0 { toPortable dW varsW with variants := [] } = .error .noVariants := rfl
+example : fromPortable (fun _ e => e) 0 { toPortable dW varsW with format := "0.2.0" } = .error .format := rfl
+example : alter h0 4 0 = .error .bad := alter_zero_rejected (i := 0) (vs := [3]) (d := d0) rfl (by simp)
 
 end IrisVerif.C20
